@@ -709,6 +709,14 @@ def truthiness_of(e):
 class _SubstNames(ast.NodeTransformer):
     def __init__(self, env):
         self.env = env
+        self.exprs = {k: v for k, v in env.items() if not k.isidentifier()}
+
+    def generic_visit(self, node):
+        if self.exprs and isinstance(node, (ast.Attribute, ast.Subscript)) and isinstance(getattr(node, "ctx", None), ast.Load):
+            k = src(node)
+            if k in self.exprs:
+                return ast.copy_location(_clone(self.exprs[k]), node)
+        return super().generic_visit(node)
 
     def visit_Name(self, n):
         if isinstance(n.ctx, ast.Load) and n.id in self.env:
@@ -731,6 +739,12 @@ def simplify(e):
         return isinstance(x, ast.Constant)
 
     def fold(x):
+        if isinstance(x, ast.Attribute) and isinstance(x.value, ast.Name) and x.value.id in ("errno", "ssl", "socket") \
+                and x.attr.isupper():
+            return ast.Constant(value="%s.%s" % (x.value.id, x.attr))      # symbolic integer constant of the platform
+        if isinstance(x, (ast.Tuple, ast.List, ast.Set)):
+            x.elts = [fold(z) for z in x.elts]
+            return x
         if isinstance(x, ast.UnaryOp) and isinstance(x.op, ast.Not):
             o = fold(x.operand)
             if const(o):
@@ -772,20 +786,29 @@ def simplify(e):
     return fold(e)
 
 
-def peval(view, env, max_paths=400):
-    """Partial evaluation of a (small, loop-light) function under known parameter values.
-    env: {name: python constant}.  Enumerates the CFG paths that are feasible when those names hold those constants (tests
-    that fold to a constant take one edge only), carrying straight-line assignments to locals along each path.
+def peval(view, env, max_paths=400, effects=False):
+    """Partial evaluation of a (small, loop-light) function under known values.
+    env: {name or expression text: python constant} (e.g. {"comparison": "<"} or {"ex.args[0]": "errno.EAGAIN"}; the
+    integer constants errno.X / ssl.X / socket.X fold to the symbolic constants "errno.X", ...).  Enumerates the CFG paths that
+    are feasible when those names/expressions hold those constants (tests that fold to a constant take one edge only),
+    carrying straight-line assignments to locals along each path.
     Returns [(kind, expr | None, in_handler)] with kind in {'return', 'raise', 'end'}; expr is the returned expression with
-    locals replaced by what they hold on that path and folded.  The result does not depend on how the function spells its
-    dispatch (if/elif chain, early returns, flags), only on what it computes."""
+    locals replaced by what they hold on that path and folded.  With effects=True a 4th item lists the attribute stores
+    (`self.cutoff = True`) executed on that path.  The result does not depend on how the function spells its dispatch
+    (if/elif chain, early returns, guard clauses, flags), only on what it computes."""
     cfg = view.cfg
     cenv = {k: ast.Constant(value=v) for k, v in env.items()}
     out, seen_out = [], set()
-    stack = [(cfg.entry.id, dict(cenv), False, {})]
+    stack = [(cfg.entry.id, dict(cenv), False, {}, ())]
     paths = 0
+
+    def emit(kind, e, handler, eff):
+        key = (kind, src(e) if e is not None else None, handler, eff if effects else ())
+        if key not in seen_out:
+            seen_out.add(key)
+            out.append((kind, e, handler, eff) if effects else (kind, e, handler))
     while stack and paths < max_paths:
-        nid, loc, handler, visits = stack.pop()
+        nid, loc, handler, visits, eff = stack.pop()
         n = cfg.nodes[nid]
         visits = dict(visits)
         visits[nid] = visits.get(nid, 0) + 1
@@ -794,17 +817,11 @@ def peval(view, env, max_paths=400):
         if n.kind == "return":
             v = n.ast.value
             e = simplify(_SubstNames(loc).visit(_clone(v))) if v is not None else None
-            key = ("return", src(e) if e is not None else None, handler)
-            if key not in seen_out:
-                seen_out.add(key)
-                out.append(("return", e, handler))
+            emit("return", e, handler, eff)
             paths += 1
             continue
         if n.kind == "raise":
-            key = ("raise", src(n.ast.exc) if getattr(n.ast, "exc", None) is not None else None, handler)
-            if key not in seen_out:
-                seen_out.add(key)
-                out.append(("raise", getattr(n.ast, "exc", None), handler))
+            emit("raise", getattr(n.ast, "exc", None), handler, eff)
             paths += 1
             continue
         succ = cfg.succ.get(nid, [])
@@ -813,17 +830,20 @@ def peval(view, env, max_paths=400):
             if isinstance(c, ast.Constant):
                 succ = [(b, lab) for b, lab in succ if lab == ("T" if c.value else "F") or lab not in ("T", "F")]
         elif n.kind == "except":
-            handler = True
-        elif isinstance(n.ast, ast.Assign) and len(n.ast.targets) == 1 and isinstance(n.ast.targets[0], ast.Name) and n.kind not in ("for", "with"):
-            loc = dict(loc)
-            loc[n.ast.targets[0].id] = simplify(_SubstNames(loc).visit(_clone(n.ast.value)))
-        if not succ or nid == cfg.exit.id:
-            if ("end", None, handler) not in seen_out and nid == cfg.exit.id:
-                seen_out.add(("end", None, handler))
-                out.append(("end", None, handler))
+            handler = src(n.ast.type) if getattr(n.ast, "type", None) is not None else "BaseException"   # truthy: which handler
+        elif isinstance(n.ast, ast.Assign) and len(n.ast.targets) == 1 and n.kind not in ("for", "with"):
+            tg = n.ast.targets[0]
+            val = simplify(_SubstNames(loc).visit(_clone(n.ast.value)))
+            if isinstance(tg, ast.Name):
+                loc = dict(loc)
+                loc[tg.id] = val
+            elif isinstance(tg, ast.Attribute):
+                eff = eff + ("%s = %s" % (src(tg), src(val)),)
+        if nid == cfg.exit.id or not succ:
+            if nid == cfg.exit.id:
+                emit("end", None, handler, eff)
             paths += 1
             continue
         for b, lab in succ:
-            h2 = handler
-            stack.append((b, loc, h2, visits))
+            stack.append((b, loc, handler, visits, eff))
     return out
